@@ -122,6 +122,16 @@ def run(tier: str) -> int:
                 rep.error(f"TLC failed on Driver: {r.out[-1500:]}")
             return rep.finish()
         cases = [json.loads(l) for l in open(out)]
+        if tier == "thorough":
+            # liveness under weak fairness: every plan is eventually executed completely (FairSpec, <>Quiescent)
+            env.pop("DRV_OUT")
+            rl = run_tlc("Driver", "MC_Driver_live.cfg", workers=16, env=env, timeout=3000)
+            if not rl.ok:
+                if "Temporal properties were violated" in rl.out or "violated" in rl.out:
+                    rep.violation("model:C15_PlanCompletes", "TLC: Driver.tla admits a fair behaviour in which a plan is never completed", {"tlc": rl.out[-2000:]})
+                else:
+                    rep.error(f"TLC failed on Driver (liveness): {rl.out[-1500:]}")
+            rep.add(liveness_states=rl.distinct)
     finally:
         shutil.rmtree(tmp, ignore_errors=True)
     stride = 13 if tier == "quick" else (5 if len(cases) > 50000 else 1)
